@@ -108,6 +108,15 @@ func OracleC05(c *Case, obs *RunObs) *Failure {
 		return nil // step limit (restarts on resume: documented caveat), panic/hang of the reference: not comparable
 	}
 	all := allExecs(obs)
+	if ref.Class == "fail" && hasEager(c) {
+		// a failing node makes an eager run return while its siblings are still running: which
+		// of them got to start is a matter of scheduling, only the outcome class is comparable
+		if obs.Finished && obs.Segs[len(obs.Segs)-1].Class != "fail" {
+			last := obs.Segs[len(obs.Segs)-1]
+			return &Failure{fmt.Sprintf("uninterrupted run ends with %s, interrupted+resumed run with %s (%s)", ref.Class, last.Class, last.Err), "class-differs"}
+		}
+		return nil
+	}
 	// nothing is executed that the uninterrupted run does not execute, nothing twice
 	refMS := multiset(ref.Execs, false)
 	gotMS := multiset(all, false)
@@ -172,6 +181,11 @@ func OracleC05(c *Case, obs *RunObs) *Failure {
 	if ref.Class == "done" && ref.Out.String() != last.Out.String() {
 		return &Failure{fmt.Sprintf("final output differs: uninterrupted %s, resumed %s", ref.Out, last.Out), "output-differs"}
 	}
+	if ref.Class == "fail" {
+		// a failing run stops wherever the failure surfaces; interrupts shift that point relative to
+		// the other nodes of the step, so only the class and the inclusion above are comparable
+		return nil
+	}
 	for k, n := range refMS {
 		if gotMS[k] != n {
 			return &Failure{fmt.Sprintf("execution %s happens %d time(s) in the uninterrupted run, %d in the interrupted one", k, n, gotMS[k]), "execution-lost"}
@@ -184,6 +198,15 @@ func OracleC05(c *Case, obs *RunObs) *Failure {
 		}
 	}
 	return nil
+}
+
+func hasEager(c *Case) bool {
+	for _, g := range c.Graphs {
+		if g.Mode == "wf" {
+			return true
+		}
+	}
+	return false
 }
 
 func pathIDs(p string) []int {
@@ -292,6 +315,9 @@ func OracleC06(c *Case, obs *RunObs) *Failure {
 				continue
 			}
 			ch := ix.chain(e.ID)
+			if s.NodeErr {
+				continue // another node of the same step failed: the error wins, nothing is claimed
+			}
 			if s.Class != "interrupt" && s.Class != "done" {
 				return &Failure{fmt.Sprintf("call %d: interrupt-after node %s completed but the call ended with %s", j, e.Path, s.Class), "after-no-stop"}
 			}
